@@ -669,6 +669,17 @@ func (p c05) Run(c *fw.Ctx, idx int) fw.Result {
 			note([]byte(in), ok)
 			c05CheckLimits(&res, []byte(in), "E")
 		}
+		// limit-targeted documents: several definitions (fragments of various depths spreading each
+		// other, shorthand / named / variable-default operations) in any order, separated by
+		// whitespace, commas and COMMENTS — the limits are cumulative over definitions and the
+		// tokenizer sees comment tokens between them
+		for i := 0; i < 10; i++ {
+			in := limitDoc(r)
+			res.Count("limit_targeted_documents", 1)
+			ok := c05CheckInput(&res, []byte(in), "E-limits")
+			note([]byte(in), ok)
+			c05CheckLimits(&res, []byte(in), "E-limits")
+		}
 	}
 	for k := range keys {
 		res.Keys = append(res.Keys, k)
@@ -794,4 +805,60 @@ func mutateBytes(r *rand.Rand, base []byte) []byte {
 		}
 	}
 	return b
+}
+
+// limitDoc builds one multi-definition executable document for the limit oracle.
+func limitDoc(r *rand.Rand) string {
+	nest := func(depth int, leaf string) string {
+		var sb strings.Builder
+		for d := 0; d < depth; d++ {
+			fmt.Fprintf(&sb, "f%d {", d)
+		}
+		sb.WriteString(leaf)
+		sb.WriteString(strings.Repeat("}", depth))
+		return sb.String()
+	}
+	nfr := r.IntN(4)
+	var defs []string
+	for k := 0; k < nfr; k++ {
+		leaf := "x"
+		if k > 0 && r.IntN(2) == 0 {
+			leaf = fmt.Sprintf("x ...F%d", r.IntN(k)) // spreads only earlier fragments: no cycles
+		}
+		defs = append(defs, fmt.Sprintf("fragment F%d on T {%s}", k, nest(r.IntN(5), leaf)))
+	}
+	nops := 1 + r.IntN(2)
+	for k := 0; k < nops; k++ {
+		leaf := "y"
+		if nfr > 0 && r.IntN(3) != 0 {
+			leaf = fmt.Sprintf("y ...F%d", r.IntN(nfr))
+		}
+		body := "{" + nest(r.IntN(4), leaf) + "}"
+		switch r.IntN(4) {
+		case 0:
+			defs = append(defs, body) // shorthand
+		case 1:
+			defs = append(defs, fmt.Sprintf("query Q%d %s", k, body))
+		case 2:
+			defs = append(defs, fmt.Sprintf("query Q%d($v: In = {a: {b: [1, {c: 2}]}}) %s", k, body))
+		default:
+			defs = append(defs, fmt.Sprintf("mutation M%d @d(a: {b: 1}) %s", k, body))
+		}
+	}
+	r.Shuffle(len(defs), func(i, j int) { defs[i], defs[j] = defs[j], defs[i] })
+	seps := []string{"\n", " ", "# c\n", "\n# a comment {\n# }\n", ",", "\n\n", "#\n", " ,\n"}
+	var sb strings.Builder
+	if r.IntN(3) == 0 {
+		sb.WriteString(seps[r.IntN(len(seps))])
+	}
+	for i, d := range defs {
+		if i > 0 {
+			sb.WriteString(seps[r.IntN(len(seps))])
+		}
+		sb.WriteString(d)
+	}
+	if r.IntN(3) == 0 {
+		sb.WriteString(seps[r.IntN(len(seps))])
+	}
+	return sb.String()
 }
